@@ -13,6 +13,13 @@ def _starts(run: Any) -> list[dict[str, Any]]:
     return [e for e in run.trace if e["kind"] == "start"]
 
 
+def status_at(start_ev: dict[str, Any], idx: int) -> Any:
+    """Outcome of an execution as known at trace position idx ("RUNNING" if it had not ended yet)."""
+    if start_ev.get("end_idx", 10**9) < idx:
+        return start_ev.get("status")
+    return "RUNNING"
+
+
 def _short(name: str) -> str:
     """Short worker-invariant label of a test (first variants of the bridged name)."""
     parts = name.split(".vms.")[0].split(".")
@@ -45,7 +52,7 @@ def c01(run: Any) -> list[Finding]:
                 produces = key in prev["sets"]
                 creates = prev["prefix"].startswith("0") or bool(prev.get("object_root"))
                 same_object = any(k[0].split("|")[0].split("_")[-1] == need["object"].split("|")[0].split("_")[-1] for k in prev["sets"])
-                if (produces or (creates and same_object)) and prev.get("status") not in trav.SAVING:
+                if (produces or (creates and same_object)) and status_at(prev, ev["idx"]) not in trav.SAVING and status_at(prev, ev["idx"]) != "RUNNING":
                     excused = True
                     break
             if excused:
@@ -53,13 +60,13 @@ def c01(run: Any) -> list[Finding]:
             # classify for the fingerprint: where is the state, who skipped the producer
             holders = sorted(w for w, store in run.own.items() if store.get(key) is True)
             in_shared = run.shared.get(key) is True
-            produced_here = [p["worker"] for p in run.trace[: ev["idx"]] if p["kind"] == "start" and key in p["sets"] and p.get("status") in trav.SAVING]
+            produced_here = [p["worker"] for p in run.trace[: ev["idx"]] if p["kind"] == "start" and key in p["sets"] and status_at(p, ev["idx"]) in trav.SAVING]
             removed = [d for d in run.trace[: ev["idx"]] if d["kind"] == "door" and d["action"] == "unset" and any((r[0], r[1]) == key for r in d["requests"])]
             incompat = any(n.is_flat() and len(n.incompatible_workers) > 0 for n in run.graph.nodes)
             if removed:
                 cause = "removed by a cleanup earlier in this run although this dependant was still pending" + (" (a worker's restrictions exclude a selected test, which disables the postponement of cleanups)" if incompat else "")
             elif produced_here:
-                statuses = sorted({p.get("status") for p in run.trace[: ev["idx"]] if p["kind"] == "start" and key in p["sets"] and p.get("status") in trav.SAVING})
+                statuses = sorted({p.get("status") for p in run.trace[: ev["idx"]] if p["kind"] == "start" and key in p["sets"] and status_at(p, ev["idx"]) in trav.SAVING})
                 cause = f"produced in this run by {'another worker' if ev['worker'] not in produced_here else 'this worker'} with status {'/'.join(statuses)} but that pool is not among the instructed sources"
             elif holders and not in_shared:
                 cause = "state only in another worker's own pool (left by a previous run): the holder skipped the producer after its scan, this worker skipped it as finished"
@@ -272,7 +279,7 @@ def c08(run: Any) -> list[Finding]:
             for loc in need["locations"].split():
                 src, _path = loc.split(":", 1)
                 named.add(src if src else "shared")
-            producers = {s["worker"] for s in run.trace[: ev["idx"]] if s["kind"] == "start" and key in s["sets"] and s.get("status") in trav.SAVING}
+            producers = {s["worker"] for s in run.trace[: ev["idx"]] if s["kind"] == "start" and key in s["sets"] and status_at(s, ev["idx"]) in trav.SAVING}
             producers |= {w for w, names in getattr(run, "previous_producers", {}).get(key, {}).items()}
             if "shared" not in named:
                 out.append((f"C08 {sc} shared pool not named {_short(ev['bridged'])}", f"{_short(ev['bridged'])} on {wid} is not told about the shared pool for {need['state']}", {"locations": need["locations"]}))
